@@ -83,6 +83,44 @@ NEEDS = {
  "C19-r4m2": ("FMA sizes the exact product as 2*max(x.prec, y.prec) in uint32", "an operand precision just above 2^31: the product is rounded to a handful of digits"),
  "C20-r4m1": ("SetBitsExp folds the low words of long slices into a sticky bit computed one digit short", "slice >= 8 words longer than the precision needs, highest dropped word d*10^18, everything else below zero, round-up mode"),
  "C20-r4m2": ("SetBitsExp clamps the raw exponent to +-2^32 instead of +-2^62", "slice of 113 million words (leading zeros worth more than 2^31 digits) with an exponent above 2^32"),
+ "C01-r5m1": ("uadd/usub fold an addend more than 2^16 words below the other into a sticky bit after extending the larger one to prec/19+1 words", "effective subtraction from an exact power of ten, gap above 1.245 million digits, precision 18, 37, 56, ... (one guard digit short when the leading digit cancels), nearest modes"),
+ "C01-r5m2": ("uquo drops the low words of a dividend with >= 1024 surplus words and takes their sticky bit with a digit count where a word count is meant", "dividend 20 000 digits longer than needed whose kept part divides exactly, the rest non-zero only above its lowest ~1000 digits (mantissa zero-padded below)"),
+ "C02-r5m1": ("uadd/usub fold an addend into a sticky bit when the gap exceeds prec+2+65536 words, measured from the rounding position instead of from the low end of the other operand", "a mantissa of more than 1.2 million digits (all nines or zeros) and an addend placed exactly at its bottom: a carry or borrow through the whole run is lost"),
+ "C02-r5m2": ("uquo tries a short division first and treats a non-zero trial remainder as 'never terminates'", "x / 2^k with k above ~190 at a precision that holds the whole terminating expansion: reported Below/Above instead of Exact"),
+ "C03-r5m1": ("FMA adds a one-digit stand-in instead of the product when the product lies a word below what z keeps of u", "u longer than the precision by 20+ digits with a run of nines (same sign) or zeros (opposite) from the rounding digit down to the product"),
+ "C03-r5m2": ("FMA trims the exact product below the rounding digit to one sticky word (exponent of the sum assumed >= that of the larger operand)", "subtraction from a power of ten: the rounding digit is the top digit of the sticky word, product word exactly 5*10^18 with something below, nearest modes"),
+ "C04-r5m1": ("SetFloat64 decodes the bits itself and recognises quiet NaNs only", "signalling NaN bit patterns become infinities"),
+ "C04-r5m2": ("FMA adds the product to u inline without Add's -0 fix-up", "u == -(x*y) exactly under ToNegativeInf: +0 instead of -0"),
+ "C05-r5m1": ("Sqrt's exactness shortcut uses 2*prec instead of 2*(prec+2)", "x = m^2 with m of prec+1 digits ending in 5, ToNearestEven"),
+ "C05-r5m2": ("Sqrt reads 'digits were lost' from the accuracy field of the scaled operand", "an operand whose own Acc() is not Exact (leftover from an earlier rounding) that is an exact square, round-up modes"),
+ "C06-r5m1": ("umul trims each factor to prec/19+3 words with a sticky bit", "a product that is exactly a round number or a hair above one with a long factor (7 x ceil(1/7), 2^200 x 5^200) at a small precision"),
+ "C06-r5m2": ("divRecursive no longer clears the quotient slice", "divisor >= 100 words and a receiver whose buffer is reused"),
+ "C07-r5m1": ("decCpyInv gets an SSE2 path for >= 1024 words whose loads and stores inside a block run upwards", "shl10VU with shift 0, >= 1024 words, destination 1..7 words above the source in the same array"),
+ "C07-r5m2": ("shr10VU software-pipelined: x[i+2] loaded one iteration early", "reads one word beyond x: faults when x ends at the end of a page followed by an inaccessible one"),
+ "C08-r5m2": ("GobDecode decodes the mantissa into the receiver's own buffer before validating", "a payload rejected by a mantissa/precision check and a finite receiver with enough capacity: receiver left malformed"),
+ "C09-r5m1": ("the NaN exits of Add/Sub/Mul/Quo/FMA share a helper that rebuilds the receiver from a struct literal without the mode", "a receiver in a non-default mode, an ErrNaN panic, then Mode()"),
+ "C09-r5m2": ("SetRat with a power-of-ten denominator goes through SetInt + SetMantExp", "precision-0 receiver and a denominator 10^k with more digits than the numerator and than 34"),
+ "C10-r5m1": ("setNat stops when the scratch number is exhausted and leaves the remaining receiver words unwritten", "SetInt/SetRat/SetFloat of an integer with exactly 19k digits whose bit length overshoots, into a receiver that held more words before"),
+ "C10-r5m2": ("divLarge skips the pooled copy of the divisor when no scaling is needed", "z.Quo(x, z) with a divisor of 3+ words whose leading digit is 5..9"),
+ "C11-r5m1": ("Parse refuses texts longer than 1 MiB", "values of more than 1.05 million digits"),
+ "C11-r5m2": ("convertWords converts blocks of 2^16 words in goroutines and drops the top partial block", "mantissas of more than 65536 words whose length is not a multiple of 65536"),
+ "C12-r5m1": ("scanExponent collects the exponent digits in a 20-byte buffer", "exponent fields with leading zeros, more than 20 digit characters"),
+ "C12-r5m2": ("Parse recognises Inf after trimming any run of signs", "'--Inf', '+-inf', '++++Inf' accepted"),
+ "C13-r5m1": ("Append's constants 2 and 0.01 hoisted to package variables whose sign is written per call", "two goroutines formatting small values of opposite sign with 'f' (a concurrency failure: caught by C18, invisible to the sequential C13)"),
+ "C13-r5m2": ("%g prints with fmtF and strips trailing fractional zeros, scanning the whole buffer for the '.'", "Append onto a buffer that already contains a '.', g/G format, a round integer"),
+ "C14-r5m1": ("setNat skips the division of the top word when it is 'below' 10^19, testing r > 10^19", "a big.Int whose top 64-bit word is exactly 10^19: divide overflow panic"),
+ "C14-r5m2": ("Int/Rat convert in place into the caller's big.Int; the normalisation scans from the old length", "a caller-supplied big.Int / big.Rat that held a longer value before and a mantissa just under a 2^(64k) boundary"),
+ "C15-r5m1": ("Float64/Float32 work on the top 1024 words with the rest folded into a sticky digit taken with a word count where a digit count is meant", "an exact float followed by zeros and one stray digit about 19 500 digits down: value right, accuracy Exact"),
+ "C15-r5m2": ("floatPow5 keeps 14 instead of 64 guard bits in the running square", "Float of values with decimal exponents beyond +-3e6: hundreds of ulps off at 1e8"),
+ "C16-r5m1": ("Cmp decides by the exponents first, negating them for two negative operands (-MinExp wraps)", "two negative values one of which has exponent MinExp"),
+ "C16-r5m2": ("ucmp skips equal leading words four at a time with a mis-parenthesised XOR/OR test", "mantissas of >= 4 words whose first difference is not in the lowest word of its block"),
+ "C17-r5m1": ("GobDecode checks mantissa digits against the precision field only for precision-0 receivers", "corrupt payload with precision p' below the digit count into a receiver of precision between p' and the digit count: MinPrec > Prec"),
+ "C17-r5m2": ("GobDecode returns early for zero and infinity payloads, keeping the transmitted accuracy", "an inexact zero or infinity decoded into a receiver with non-zero precision: Acc() not Exact"),
+ "C18-r5m1": ("Append's constant 0.01 hoisted to a package variable whose sign is written per call", "two goroutines in Text('f') on values below the last printed digit, opposite signs"),
+ "C18-r5m2": ("scratch buffers above 2^15 words bypass the pool and are parked in an atomic.Value taken with Load then Store(nil)", "two goroutines asking for giant scratch within the same few nanoseconds after a buffer has been parked (no data race; the demonstration hammers for 1.2 s on average). NOT caught: see DESIGN section 8"),
+ "C19-r5m1": ("the six recover closures folded into a type switch without a default", "a string panic (rounding under an out-of-range mode) inside a context operation is swallowed"),
+ "C19-r5m2": ("setPrec drops the MaxPrec clamp", "Context precision above 2^32-1 wraps (1<<32+3 gives a 3-digit context)"),
+ "C20-r5m1": ("SetInt and SetBitsExp share a precision-0 default without the MaxPrec clamp", "a slice of more than 226 million words (2^32 digits) into a precision-0 receiver: precision wraps to 34"),
 }
 def main():
     want = sys.argv[1:]
@@ -102,7 +140,7 @@ def main():
             shutil.copy(d, os.path.join(out, "patch.diff"))
             shutil.copy(demo, os.path.join(out, "demo_test.go.txt"))
             sub = "context" if re.search(r"^package context", open(demo).read(), re.M) else "."
-            extra = {"C02-r3m1": ["C01"], "C19-r3m2": ["C01", "C04"], "C04-m1": ["C03", "C10"], "C04-m2": ["C01", "C03"], "C08-m1": ["C01", "C12"], "C02-m2": ["C10"], "C07-m1": [], "C18-m1": [], "C04-r4m1": ["C03"], "C04-r4m2": ["C15"], "C19-r4m2": ["C03", "C04"], "C08-r4m2": ["C09", "C14"], "C08-r4m1": ["C09", "C10"], "C02-r4m1": ["C01"], "C02-r4m2": ["C12"], "C09-r4m2": ["C15"], "C10-r4m2": ["C06", "C01"], "C06-r4m1": ["C10", "C01"], "C06-r4m2": ["C01", "C02"], "C16-r4m1": ["C17"], "C17-r4m1": ["C08", "C18"], "C20-r4m1": ["C08"]}.get(sid, [])
+            extra = {"C02-r3m1": ["C01"], "C19-r3m2": ["C01", "C04"], "C04-m1": ["C03", "C10"], "C04-m2": ["C01", "C03"], "C08-m1": ["C01", "C12"], "C02-m2": ["C10"], "C07-m1": [], "C18-m1": [], "C04-r4m1": ["C03"], "C04-r4m2": ["C15"], "C19-r4m2": ["C03", "C04"], "C08-r4m2": ["C09", "C14"], "C08-r4m1": ["C09", "C10"], "C02-r4m1": ["C01"], "C02-r4m2": ["C12"], "C09-r4m2": ["C15"], "C10-r4m2": ["C06", "C01"], "C06-r4m1": ["C10", "C01"], "C06-r4m2": ["C01", "C02"], "C16-r4m1": ["C17"], "C17-r4m1": ["C08", "C18"], "C20-r4m1": ["C08"], "C13-r5m1": ["C18"], "C08-r5m2": ["C17"], "C06-r5m1": ["C01", "C02"], "C04-r5m2": ["C03"], "C02-r5m1": ["C01"], "C02-r5m2": ["C01"], "C01-r5m2": ["C02"], "C10-r5m1": ["C14"], "C06-r5m2": ["C10"], "C17-r5m1": ["C08"]}.get(sid, [])
             env = dict(os.environ)
             if prop == "C18":
                 env["DEMO_RACE"] = "race"
